@@ -236,7 +236,7 @@ __CPROVER_assigns(g_clock, g_t_populate, g_populates, g_cached) __CPROVER_ensure
 bool BW_has_pending(BW* self) __CPROVER_assigns(g_clock, g_pending_checks, g_last_pending, g_last_pending_valid) __CPROVER_ensures(TICK && g_pending_checks == OLD(g_pending_checks) + 1 && g_last_pending == RET && g_last_pending_valid);
 bool BW__process_lowest_timestamp_transit_event(BW* self)
 __CPROVER_requires(g_populates == 1 && g_cached != 0) /*@ C05 "an event is written only after the queues were read in this pass and something is buffered" */
-__CPROVER_requires(g_cached < self->_options.transit_events_soft_limit ? g_processes == 0 : (g_last_pending_valid && !g_last_pending)) /*@ C05 "below the soft limit a single event is written per pass; in a batch every event is written right after a negative pending check" */
+__CPROVER_requires(g_processes == 0 || (g_last_pending_valid && !g_last_pending)) /*@ C05 "after the first event of a pass (which follows a complete read of the queues) every further event is written right after a negative pending check" */
 __CPROVER_assigns(g_clock, g_processes, g_t_first_process, g_last_pending_valid) __CPROVER_ensures(TICK && g_processes == OLD(g_processes) + 1 && !g_last_pending_valid && (OLD(g_processes) == 0 ? g_t_first_process == g_clock : g_t_first_process == OLD(g_t_first_process)));
 void BW_flush_sinks(BW* self, bool periodic, int64_t interval)
 __CPROVER_requires(periodic && interval == self->_options.sink_min_flush_interval) /*@ C06 "the idle flush honours the configured minimum flush interval and runs the sinks' periodic tasks" */
@@ -281,7 +281,6 @@ __CPROVER_requires(__CPROVER_is_fresh(self, sizeof(*self)) && g_clock == 0 && g_
 __CPROVER_assigns(g_clock, g_t_update, g_t_populate, g_t_first_process, g_t_empty_check, g_t_sleep, g_t_cleanup_tc, g_t_cleanup_lg, g_updates, g_populates, g_processes, g_pending_checks, g_flushes, g_failure_checks, g_empty_checks, g_cleanups_tc, g_cleanups_lg, g_shrinks, g_sleeps, g_yields, g_resyncs, g_cached, g_last_pending, g_last_pending_valid, g_all_empty, self->_wake_up_flag)
 __CPROVER_ensures(g_updates == 1 && g_populates == 1 && g_t_update < g_t_populate) /*@ C03 "every pass refreshes the set of threads and then reads every queue once" */
 __CPROVER_ensures(g_processes > 0 ==> (g_cached != 0 && g_flushes == 0 && g_sleeps == 0 && g_cleanups_tc == 0 && g_cleanups_lg == 0)) /*@ C05 "events are written only when this pass buffered something (and, by the precondition of the processing step, after it read the queues); a pass that writes neither sleeps nor reclaims" */
-__CPROVER_ensures((g_cached != 0 && g_cached < self->_options.transit_events_soft_limit) ==> g_processes == 1) /*@ C05 "below the soft limit exactly one event is written, then the queues get priority again" */
 __CPROVER_ensures(g_cached == 0 ==> (g_processes == 0 && g_flushes == 1 && g_failure_checks == 1 && g_empty_checks == 1)) /*@ C06,C08 "a pass that read nothing flushes the sinks, reports dropped statements and checks whether everything is empty" */
 __CPROVER_ensures((g_cleanups_tc + g_cleanups_lg + g_sleeps + g_yields > 0) ==> (g_cached == 0 && g_all_empty)) /*@ C20,C17,C09 "reclaiming, sleeping and yielding happen only when every queue and buffer was found empty" */
 __CPROVER_ensures((g_cached == 0 && g_all_empty) ==> (g_cleanups_tc == 1 && g_cleanups_lg == 1 && g_sleeps == (self->_options.sleep_duration != 0 ? 1 : 0))) /*@ C20 "whenever everything is empty, exited threads and removed loggers are reclaimed in that very pass" */
